@@ -704,6 +704,9 @@ func init() {
 			g.ft.Callbacks = g.r.P(0.5)
 			g.ft.Variadic = g.r.P(0.6)
 			g.ft.PThenProvide = 0 // the dry container never runs the function that would register
+			// keys that only a decorator introduces: no model claim is made about
+			// them, but dry and normal containers must still agree
+			g.ft.DecoIntroduce = g.r.P(0.3)
 			if g.r.P(0.5) {
 				g.ft.MaxScopes, g.ft.MaxDepth = g.r.Range(3, 6), 3
 			}
@@ -944,6 +947,7 @@ func init() {
 			g.ft.Objects = true
 			g.ft.PAvail = 0.9
 			g.ft.PWide = []float64{0, 0.03, 0.08}[g.r.Intn(3)]
+			g.ft.DecoIntroduce = g.r.P(0.2) // equivalence of encodings also holds for decorator-introduced keys
 			if g.r.Intn(5) == 0 {
 				g.ft.Catalog = true
 				g.ft.NT = 6
